@@ -63,15 +63,74 @@ def lockstep(run, m, F, E, pair, rule_sink):
     mlist = modes(m) if has_mode else [('n/a', 0)]
     flags = [0, 1] if has_flag else [0]
     npairs = 0
-    if M is not None:
-        margs = pair.margs if getattr(pair, 'margs', None) else [PtrV('IN'), IntV(64, Lin.atom('n'), 'u')]
-        mits = conv.run_iteration(I, M, st0.clone(), margs, eb_src, eb_dst)
-    else:
-        s = st0.clone()
-        s.assume_ge0(Lin.atom('n') - Lin.atom('cur') - 1)
-        it = conv.Iter()
-        it.kind, it.st, it.din, it.dlen, it.dout, it.ret, it.info, it.stores = 'backedge', s, Lin.const(eb_src), Lin.const(1), None, None, None, []
-        mits = [it]
+    def measure_args(mv):
+        if getattr(pair, 'margs', None):
+            return pair.margs
+        out = []
+        for k, p in enumerate(M.params):
+            ty = p['ty']
+            if ty.endswith('*'):
+                out.append(PtrV('IN'))
+            elif ty == 'i64':
+                out.append(IntV(64, Lin.atom('n'), 'u'))
+            elif ty == 'i32':
+                out.append(IntV(32, Lin.const(mv), 'u'))       # a measure pass that takes the validation mode
+            else:
+                out.append(IntV(int(ty[1:]) if ty[1:].isdigit() else 8, Lin.const(0), 'u'))
+        return out
+
+    m_takes_mode = M is not None and not getattr(pair, 'margs', None) and any(p['ty'] == 'i32' for p in M.params)
+    mits_by_mode = {}
+
+    def measure_iterations(mv):
+        key = mv if m_takes_mode else None
+        if key not in mits_by_mode:
+            if M is not None:
+                mits_by_mode[key] = conv.run_iteration(I, M, st0.clone(), measure_args(mv), eb_src, eb_dst)
+            else:
+                s = st0.clone()
+                s.assume_ge0(Lin.atom('n') - Lin.atom('cur') - 1)
+                it = conv.Iter()
+                it.kind, it.st, it.din, it.dlen, it.dout, it.ret, it.info, it.stores = 'backedge', s, Lin.const(eb_src), Lin.const(1), None, None, None, []
+                mits_by_mode[key] = [it]
+        return mits_by_mode[key]
+
+    nm_total = 0
+    for (mname, mv) in mlist:
+      mits = measure_iterations(mv)
+      nm_total = max(nm_total, len(mits))
+      for mi, mit in enumerate(mits):
+        if mit.kind != 'backedge':
+            if mit.kind == 'abort':
+                rule_sink('abort', pair, 'measure', None, mit, None, eb_src)
+            continue
+        if not m_takes_mode and mname != mlist[0][0]:
+            pass
+        else:
+            v1, u1 = conv.in_bounds_events(I, mit)
+            rule_sink('bounds', pair, 'measure', None, mit, (v1, u1), eb_src)
+            rule_sink('progress', pair, 'measure', None, mit, None, eb_src)
+        for fl in flags:
+            cargs = pair.cargs if getattr(pair, 'cargs', None) else conv_args(I, C, mv, fl, eb_src)
+            cits = conv.run_iteration(I, C, mit.st.clone(), cargs, eb_src, eb_dst)
+            label = mname + ('/substitute_out_of_range=%d' % fl if has_flag else '')
+            for cit in cits:
+                npairs += 1
+                if cit.kind == 'backedge':
+                    v2, u2 = conv.in_bounds_events(I, cit)
+                    rule_sink('bounds', pair, 'convert', label, cit, (v2, u2), eb_src)
+                    rule_sink('agree', pair, label, mit, cit, eb_dst, eb_src)
+                elif cit.kind == 'ret':
+                    rule_sink('ret', pair, label, mit, cit, None, eb_src)
+                elif cit.kind == 'abort':
+                    rule_sink('abort', pair, 'convert ' + label, mit, cit, None, eb_src)
+                elif cit.kind == 'throw':
+                    rule_sink('throw', pair, label, mit, cit, None, eb_src)
+    return nm_total, npairs
+
+
+def _unused():
+    mits = []
     for mi, mit in enumerate(mits):
         if mit.kind != 'backedge':
             if mit.kind == 'abort':
@@ -98,6 +157,22 @@ def lockstep(run, m, F, E, pair, rule_sink):
                     elif cit.kind == 'throw':
                         rule_sink('throw', pair, label, mit, cit, None, eb_src)
     return len(mits), npairs
+
+
+def simple_loops(pair):
+    """Both passes are single loops (the lockstep comparison is per character only then)."""
+    from ..interp import loop_info
+    r = getattr(pair, '_simple', None)
+    if r is None:
+        r = True
+        for f in (pair.M, pair.C):
+            if f is None:
+                continue
+            loops, back = loop_info(f)
+            if len(loops) > 1:
+                r = False
+        pair._simple = r
+    return r
 
 
 def check_pairs(run, m, F, E):
@@ -135,7 +210,9 @@ def check_pairs(run, m, F, E):
             key = ('R03.6', subject, a)
             r = agg.setdefault(key, [0, [], []])
             r[0] += 1
-            if it.din is None or st.is_ge0(it.din - eb_src) is not True:
+            if it.din is None or not simple_loops(pair):
+                r[2].append('cursor advance of this loop is not tracked (not a single cursor loop)')
+            elif st.is_ge0(it.din - eb_src) is not True:
                 r[1].append('an iteration may consume no input (delta = %r bytes) [%s]' % (it.din, units))
         elif kind == 'agree':
             label, mit, cit, eb_dst = a, b, it, extra
@@ -143,6 +220,9 @@ def check_pairs(run, m, F, E):
             r = agg.setdefault(key, [0, [], []])
             r[0] += 1
             cst = cit.st
+            if not simple_loops(pair):
+                r[2].append('a pass is not a single cursor loop (chunked / nested loops): step summaries are not comparable unit by unit')
+                return
             if cit.din is None or mit.din is None:
                 r[2].append('cursor advance not tracked')
                 return
